@@ -3,7 +3,10 @@ CONFIG = {
         "text": "Coq theorems (Qed, closed under the global context) about a Gallina model of the iterator tree that query/select.go + "
                 "tsm1 Engine.CreateIterator build for the covered SELECT grammar: the k-way sorted merge of the streams of ANY partition of the "
                 "points equals the sorted stream of all points (both directions), count/sum/mean/min/max/first/last evaluated over ANY tree of "
-                "partial aggregates equal the single-level value, the LIMIT pushed down per shard and tag set is sound, hence the modelled "
+                "partial aggregates equal the single-level value, spread/median/mode/percentile(f,N)/distinct/count(distinct) evaluated above the last merge "
+                "are independent of the order in which a window's points arrive (mode: highest frequency, then earliest first time, then greater value; "
+                "percentile: nearest rank floor(n*N/100+0.5)-1 in (value, time) order with that point's time; distinct: one row per value in the order of "
+                "first arrival in scan direction, equal times by value), the LIMIT pushed down per shard and tag set is sound, hence the modelled "
                 "result of every layout (nodes x shards x any assignment of points) equals the reference evaluator Spec.eval over the raw "
                 "points and any two layouts agree; window arithmetic covers the time line. Every run re-reads the pushed-down call set and "
                 "time bounds from the source and executes each generated (data set, statement) with the real query.Executor + "
@@ -25,11 +28,14 @@ CONFIG = {
     "shard": 60,
     "search_rounds": 2,
     "search_boost": 2,
-    "rule": "corpus (witnesses of the five repaired defects and of the SLIMIT finding) then designed sweeps (4 field types x every function x "
+    "rule": "corpus (witnesses of the nine repaired defects - incl. mode() frequency ties / single occurrences, percentile() time among equal values, "
+            "percentile() window without a rank ending the result - and of the SLIMIT finding) then designed sweeps (4 field types x every function x "
             "{no interval, 10ns, 10ns+3ns offset, 20ns-7ns offset} x every fill x ASC/DESC with rotating tag grouping / predicate / LIMIT / OFFSET; "
-            "LIMIT x OFFSET x SLIMIT x SOFFSET sweep; cross-series timestamp ties) then seeded generation: data sets of 0..57 points, 1..5 series "
+            "LIMIT x OFFSET x SLIMIT x SOFFSET sweep; cross-series timestamp ties; a few-valued data set with frequency ties, equal values at different "
+            "times in different series and single occurrences under distinct/mode/percentile/count(distinct)) then seeded generation: data sets of 0..57 points, 1..5 series "
             "over 2 tag keys (tags may be absent), float/int/string/bool field plus an optional second field, 1..3 write batches with later "
-            "overwrites, negative and window-aligned timestamps, half of the data sets without cross-series timestamp ties; 8 statements per data "
+            "overwrites, negative and window-aligned timestamps, half of the data sets without cross-series timestamp ties, 45% of the data sets with values from a "
+            "pool of 2..4 values (many duplicates); percentile arguments 0..120 incl. x.5 and the rank boundaries; 8 statements per data "
             "set over the whole grammar with window-aligned / off-by-one / empty time ranges; 6 layouts per data set (8 thorough), one of them with a cache snapshot in flight (begun, not committed) under the later batches and during the queries. "
             "distinct = distinct (data set, statement); non-trivial = data set non-empty and result has at least one row",
     "trusted_base": [
@@ -37,15 +43,22 @@ CONFIG = {
         "C11: float rounding is outside the model: mean and float fill(linear) results are accepted within 2^-44 relative to the data magnitude; all other values exactly",
         "C11: tag-set order for SLIMIT is modelled as value-tuple order; statements with SLIMIT/SOFFSET are generated only for data whose series have all or none of the GROUP BY tags (tsdb.MakeTagsKey orders differently otherwise)",
         "C11: shards of all layouts live on one node (ClusterShardMapper local mapping); remote iterator hops are not exercised",
-        "C11: pushed-down call set (NewCallIterator), count->sum merge rewrite and MinNanoTime/MaxNanoTime are regenerated from the source on every run",
+        "C11: pushed-down call set (NewCallIterator: not spread/median/distinct/mode/percentile), count->sum merge rewrite and MinNanoTime/MaxNanoTime are regenerated from the source on every run",
+        "C11: mode/percentile/distinct/count(distinct): the reducers' tie-breaking (sort by value then time, first arrival per value) is tied to the code only by the differential run (corpus witnesses + few-valued data sets), not re-read from the source",
     ],
     "modelled": "modelled (theories/C11/Model.v): index tag sets per shard incl. per-shard SLIMIT/SOFFSET, one cursor per series, per-series call iterators, "
                 "Merge/SortedMerge as pop-least k-way merge, call iterator re-applied after every merge (count as sum), per-tag-set LIMIT pushdown, "
-                "merge of shards and of nodes, reduce-slice for spread/median; Spec.finish = interval time, fill, LIMIT/OFFSET, emitter. "
-                "Not modelled: cursors over cache/TSM files (C02/C09), time zones, subqueries, multiple fields/calls, math, top/bottom/percentile/..., "
+                "merge of shards and of nodes, one reducer per (tag set, window) above the last merge for spread/median/mode/percentile/distinct/"
+                "count(distinct) (Spec.aggs on the merged raw points; the layout-dependent arrival order inside a window is abstracted to the "
+                "canonical order, justified by slice_aggregates_order_independent); Spec.finish = interval time, fill (none for distinct, 0 for "
+                "count(distinct)), LIMIT/OFFSET, emitter. "
+                "Not modelled: cursors over cache/TSM files (C02/C09), time zones, subqueries, multiple fields/calls, math, top/bottom/sample/stddev/..., "
+                "the DistinctReducer's map + sort.Stable and Go's sort inside the mode/percentile reducers (modelled by their result: the points in "
+                "(value, time) order), percentile's float index arithmetic (modelled exactly; N restricted to multiples of 0.5), "
                 "the first()/last() limit-1 cursor shortcut (abstracted to the per-series reduce), float rounding, int64 wrap-around of times",
     "assumptions": ["times and intervals stay far from the int64 bounds (no wrap in Window)",
                     "field values are exact: integers, integer-valued floats of magnitude < 2^53, booleans, strings from an ordered pool",
+                    "percentile(f, N): N is a non-negative multiple of 0.5 (the float expression floor(n*N/100+0.5) is then exact)",
                     "one field type per field across shards"],
 }
 
